@@ -1,6 +1,6 @@
 """C10 — end of stream is clean only on a response boundary."""
 import mpdgen as g
-from connlib import COQ_FILES, run_cases, describe, print_replay
+from connlib import run_bigbin, replay_bigbin, COQ_FILES, run_cases, describe, print_replay
 from vlib import Failure, finish, unhexs
 
 
@@ -115,8 +115,15 @@ def run(ctx, only=None):
     dist = {"cases": len(cases), "clean_cuts": sum(1 for e in expect if e and e[-1] == "eof"), "unclean_cuts": sum(1 for e in expect if e and e[-1] == "ueof"),
             "greeting_cuts": sum(1 for e in expect if e and e[-1] == "connect:ueof")}
     nontrivial = {c for c, e in zip(cases, expect) if e and e[-1] != "eof"}
+    n_big = 0
+    if only is None:
+        bc, _, bf = run_bigbin(ctx)
+        n_big = len(bc)
+        fails = list(fails) + bf
+        dist = dict(dist)
+        dist["large_payload_runs_64KiB_to_8MiB"] = n_big
     return finish(
-        ctx, evaluations=len(cases), distinct_nontrivial=len(nontrivial),
+        ctx, evaluations=len(cases) + n_big, distinct_nontrivial=len(nontrivial),
         rule="every cut position of every generated well-formed stream of <= 200 bytes (60 sampled positions of longer ones; payload interior and "
              "each line boundary of a 5 KB payload), whole / byte-at-a-time / random segmentation, both flavours; expected outcome from the "
              "encoder's boundary table: responses before the cut, then clean EOF iff the cut is a response boundary; every proper prefix of "
@@ -127,6 +134,8 @@ def run(ctx, only=None):
 
 
 def replay(ctx, payload):
+    if any(str(c).startswith("bigbin") for c in payload.get("cases", [])):
+        return replay_bigbin(ctx, [c for c in payload["cases"] if c.startswith("bigbin")])
     cases = payload.get("cases", [])
     exp = payload.get("extra", {}).get("expect")
     return run(ctx, only={"cases": cases, "expect": [exp for _ in cases]})
